@@ -1,6 +1,8 @@
 """C11 — frame assignment (partial): index composition (LAYOUT), outer bound (LIN), NaN path, selector polarity/axis (SELECT)."""
 from __future__ import annotations
 
+import ast
+
 from ..alg import Poly
 from ..interp import Interp, Hooks
 from ..values import *
@@ -228,6 +230,7 @@ def run(ctx, repo, tier):
     selection_siblings(ctx, repo, "C11")
     sign_completion(ctx, repo)
     rotation_matrix_word(ctx, repo)
+    nan_marker_casts(ctx, repo)
     ctx.require_instances("SELECT", 5, "selector obligations")
     ctx.trust(*META["trusted"])
     ctx.assume(*META["assumptions"])
@@ -400,6 +403,106 @@ def sign_completion(ctx, repo):
                     fi.where, norm_stmt(st), witness=f"replacement reachable for {sorted(reach)} undetermined signs")
     else:
         ctx.inconclusive("SELECT", "C11.signfix", "sign completion reachable for an unexpected set of cases", fi.where, witness=str(sorted(reach)))
+
+
+def nan_marker_casts(ctx, repo):
+    """DTYPE: a frame outside the grid is marked with NaN by the radial assignment.  NaN survives float arithmetic (t*n_o + o stays NaN)
+    but not a cast to an integer type: `.astype(int)` turns it into -2**63, which the index arithmetic wraps to a valid-looking cell.
+    Taint: methods that can return NaN, methods / helpers that apply them per frame; a cast to int of data derived from them is wrong."""
+    at = repo.cls("molgri.molecules.transitions", "AssignmentTool")
+    methods = {}
+    for c in at.mro():
+        for name, fm in c.methods.items():
+            methods.setdefault(name, fm)
+
+    def returns_nan(fm):
+        for r in ast.walk(fm.node):
+            if isinstance(r, ast.Return) and r.value is not None:
+                t = src(r.value).replace(" ", "")
+                if t in ("np.nan", "numpy.nan", "float('nan')", 'float("nan")', "math.nan", "np.NaN"):
+                    return True
+        return False
+    tainted = {n for n, fm in methods.items() if returns_nan(fm)}
+    seeds = set(tainted)
+    # parameters that receive a tainted method at some call site
+    tainted_params = {}
+    changed = True
+    while changed:
+        changed = False
+        for n, fm in methods.items():
+            refs = {x.attr for x in ast.walk(fm.node) if isinstance(x, ast.Attribute) and isinstance(x.value, ast.Name) and x.value.id == "self"}
+            for c in ast.walk(fm.node):
+                if isinstance(c, ast.Call) and isinstance(c.func, ast.Attribute) and isinstance(c.func.value, ast.Name) and c.func.value.id == "self" and \
+                        c.func.attr in methods:
+                    g = methods[c.func.attr]
+                    params = [a.arg for a in g.node.args.args][1:]
+                    for k, a in enumerate(c.args):
+                        if k < len(params) and any(isinstance(x, ast.Attribute) and isinstance(x.value, ast.Name) and x.value.id == "self" and x.attr in tainted
+                                                   for x in ast.walk(a)):
+                            if params[k] not in tainted_params.setdefault(g.name, set()):
+                                tainted_params[g.name].add(params[k])
+                                changed = True
+                    for kw in c.keywords:
+                        if kw.arg and any(isinstance(x, ast.Attribute) and isinstance(x.value, ast.Name) and x.value.id == "self" and x.attr in tainted
+                                          for x in ast.walk(kw.value)):
+                            if kw.arg not in tainted_params.setdefault(g.name, set()):
+                                tainted_params[g.name].add(kw.arg)
+                                changed = True
+            if n not in tainted and (refs & tainted or tainted_params.get(fm.name)):
+                tainted.add(n)
+                changed = True
+    ctx.instance("QMAT")
+    if not seeds:
+        ctx.ok("QMAT", "C11.nan.cast", "no assignment function marks frames with NaN", at.module.relpath)
+        return
+    INT_T = ("int", "np.int64", "np.int32", "np.int_", "numpy.int64", "np.intp", "'int'", '"int"', "np.integer", "'int64'", '"int64"', "np.uint64", "np.int16")
+    bad, seen = [], 0
+    for n, fm in sorted(methods.items()):
+        if n not in tainted:
+            continue
+        # names whose value may carry the marker (flow-insensitive closure over local definitions)
+        defs = {}
+        for a in ast.walk(fm.node):
+            if isinstance(a, ast.Assign) and len(a.targets) == 1 and isinstance(a.targets[0], ast.Name):
+                defs.setdefault(a.targets[0].id, []).append(a.value)
+        hot = set(tainted_params.get(fm.name, set()))
+
+        def is_hot(e):
+            for x in ast.walk(e):
+                if isinstance(x, ast.Attribute) and isinstance(x.value, ast.Name) and x.value.id == "self" and x.attr in tainted:
+                    return True
+                if isinstance(x, ast.Name) and x.id in hot:
+                    return True
+            return False
+        grow = True
+        while grow:
+            grow = False
+            for nm, vs in defs.items():
+                if nm not in hot and any(is_hot(v) for v in vs):
+                    hot.add(nm)
+                    grow = True
+        for c in ast.walk(fm.node):
+            recv = None
+            if isinstance(c, ast.Call) and isinstance(c.func, ast.Attribute) and c.func.attr == "astype" and c.args and src(c.args[0]) in INT_T:
+                recv = c.func.value
+            elif isinstance(c, ast.Call) and src(c.func) in ("np.asarray", "np.array", "numpy.asarray", "numpy.array") and c.args and \
+                    any(k.arg == "dtype" and src(k.value) in INT_T for k in c.keywords):
+                recv = c.args[0]
+            if recv is None:
+                continue
+            seen += 1
+            guarded = any(isinstance(x, ast.Call) and src(x.func).split(".")[-1] in ("nan_to_num", "isnan", "isfinite", "nanmax", "where")
+                          for x in ast.walk(recv))
+            if is_hot(recv) and not guarded:
+                bad.append((fm, c))
+    for fm, c in bad:
+        ctx.violate("QMAT", "C11.nan.cast", "per-frame assignments that mark frames outside the grid with NaN are cast to an integer type: NaN "
+                    "becomes -2**63 (no longer NaN), and the index arithmetic n_o*t + o (times n_b, plus b) wraps it to a valid-looking "
+                    "cell, so outliers are silently assigned instead of being left unassigned", fm.where, src(c)[:140],
+                    witness=f"NaN marker produced by {sorted(seeds)}")
+    if not bad:
+        ctx.ok("QMAT", "C11.nan.cast", f"the NaN marker of frames outside the grid ({', '.join(sorted(seeds))}) is never cast to an integer type "
+               f"({seen} integer casts examined)", at.module.relpath)
 
 
 def rotation_matrix_word(ctx, repo):
